@@ -92,6 +92,11 @@ class CondenseSelection(C10.CondenseDataset):
         self.fs_spec.inject = False
         self._copy_kw = None
 
+    def exceptional(self, ctx, old, a, exc):
+        # unless an operation failed (injected), the function has to complete -- for an HDF5
+        # input as well as for a .tdms input (nothing copied beforehand)
+        return z3.BoolVal(bool(fsghost.ghost_of(ctx).faults))
+
     def ensures(self, ctx, old, a, result):
         kw = self._copy_kw
         if kw is None:
@@ -454,12 +459,26 @@ def replay(unit_name, inp, obligation=""):
             ins = sc.build(d)
             out = d / "conv.rtdc"
             tdms = [p for p in ins if p.suffix == ".tdms" and not p.name.endswith("_traces.tdms")][0]
+            # condense accepts a .tdms measurement as well
+            try:
+                outc = cli.condense(path_in=tdms, path_out=d / "cond_tdms.rtdc", ret_path=True)
+            except Exception as ex:
+                return {"failed": True, "detail": f"dclab-condense of a .tdms measurement raises {type(ex).__name__}: {str(ex)[:120]}"}
+            with dclab.new_dataset(tdms) as ds, dclab.new_dataset(outc) as dc:
+                for feat in ds.features_scalar:
+                    if feat in ds.features_loaded and (feat not in dc or not np.allclose(ds[feat], dc[feat], equal_nan=True)):
+                        return {"failed": True, "detail": f"dclab-condense of a .tdms measurement: scalar feature '{feat}' is "
+                                                          f"missing or differs"}
             cli.tdms2rtdc(path_tdms=tdms, path_rtdc=out, skip_initial_empty_image=False, skip_final_empty_image=False)
             with dclab.new_dataset(tdms) as ds, dclab.new_dataset(out) as dc:
+                # the measurement has contours for its first events only: the export ends where they end
+                n_out = len(dc)
+                if n_out == 0 or n_out > len(ds):
+                    return {"failed": True, "detail": f"dclab-tdms2rtdc wrote {n_out} events from a source of {len(ds)}"}
                 for feat in ds.features_innate:
                     if feat in ("contour", "mask", "image", "trace"):
                         continue
-                    if feat not in dc or not np.allclose(ds[feat], dc[feat], equal_nan=True):
+                    if feat not in dc or not np.allclose(np.asarray(ds[feat])[:n_out], dc[feat], equal_nan=True):
                         return {"failed": True, "detail": f"dclab-tdms2rtdc: feature '{feat}' differs from the .tdms source"}
     return {"failed": False, "detail": "outputs are value-identical to the inputs (apart from the added command logs)"}
 
